@@ -100,7 +100,7 @@ def check(run):
     r = gen.rng_for(run.seed, "c01")
     nrand = 4000 if thorough else 700
     for i in range(nrand):
-        specs.append(strgen.build(r, "R%d" % i, ["EnumString"], allow_braces=True))
+        specs.append(strgen.build(r, "R%d" % i, ["EnumString"], allow_braces=True, n=(45 if i in (3, 4) else None)))
     units = []
     spec_by_unit = {}
     from . import c18
